@@ -283,9 +283,11 @@ Definition c_rows (t : prior_cfg * bool * prior_row * prior_row * Q * Q * Q) : b
 
 def run(ctx):
     ctx.make_overlay(need_kernel=True)
+    ctx.regen_all(needed=("consts2v.py",))  # Gen/ConstsGen.v: the Kipping Beta parameters as the source has them now
     ok = ctx.build_models(MODELS)
     if ok:
         ctx.build_props()
+        ctx.build_props("Props/C09c.vo")
     else:
         ctx.obligations += 1
     cases = load_corpus("C09") + gen_cases(ctx)
